@@ -128,7 +128,9 @@ def build_harness(name, flavour="plain", needs_core=True, extra_srcs=(), extra_f
         lib, ckey = None, ""
         flags = ["-std=c++20", "-D" + GUARD, "-I" + os.path.join(REPO, "src")] + FLAVOURS[flavour]
     extra = [os.path.join(REPO, s) for s in extra_srcs]
-    key = hash_files([hsrc, common] + extra + ([] if needs_core else _all_headers()),
+    import glob as _glob
+    hdrs = sorted(_glob.glob(os.path.join(VERIF, "harness", "*.hpp")))
+    key = hash_files([hsrc] + hdrs + extra + ([] if needs_core else _all_headers()),
                      ckey + " ".join(flags) + " ".join(extra_flags) + " ".join(libs))
     dname = "h-%s-%s-%s" % (name, flavour, key)
     out = os.path.join(BUILD, dname)
